@@ -134,7 +134,14 @@ def replay(beh, max_counter, rdiv, nhandlers, tolerant, drift):
         if not internals:
             continue
         # --- compare the representation projected from the real object (transcription level)
-        arr = read_array(heap)
+        try:
+            arr = read_array(heap)
+            mv_now = [heap._minimal_valid_counter[handlers[i]] for i in sorted(handlers)]
+            last_now = heap._last_returned_event[0]
+        except (AttributeError, TypeError, KeyError) as e:
+            drift.append(dict(step=step, what="representation not readable (%s: %s)" % (type(e).__name__, e)))
+            internals = False
+            continue
         era = obs["era"]
         want_arr = [(tq(q), tr(r, rdiv), hh, c + (off if era[hh - 1] == 0 else 0)) for q, r, hh, c in obs["arr"]]
         # entries of a handler written in era 0 keep their era-0 counters until deleted by the reset; the reset deletes
